@@ -103,6 +103,8 @@ def cases(rng, tier):
     labels = ["a", "b"]
     k = 0
     fixed = [{"ann0": [[0.0, 1.0, "a"]], "ann1": []},
+             {"ann0": [[0.0, 1.0, None]], "ann1": [[0.0, 2.0, None], [3.0, 4.0, None]]},          # unlabelled units
+             {"ann0": [[0.0, 1.0, None], [0.0, 1.0, "a"]], "ann1": [[0.5, 2.0, "a"]]},            # mixed
              {"ann0": [[0.0, 2.0, "a"], [0.0, 2.0, "b"]], "ann1": [[0.0, 2.0, "a"]]},
              {"ann0": [[0.0, 4.0, "a"], [1.0, 2.0, "a"]], "ann1": [[0.0, 4.0, "b"], [1.0, 2.0, "b"]], "ann2": []}]
     for spec in fixed:
